@@ -1,0 +1,7 @@
+//go:build verif
+
+package route
+
+// VerifSortHosts exposes sortHostsReverseHostPort (read-only use by the C03 harness;
+// the slice handed in is sorted in place, as in Table.matchingHosts).
+func VerifSortHosts(hosts []string) []string { return sortHostsReverseHostPort(hosts) }
